@@ -474,12 +474,13 @@ def large_community(tokeniser: 'Tokeniser') -> LargeCommunities:
 # fmt: off
 _HEADER = {
     # header and subheader
-    'target':   bytes([0x00, 0x02]),
-    'target4':  bytes([0x01, 0x02]),
-    # TODO: OriginASN4Number (2,2)
-    'origin':   bytes([0x00, 0x03]),
-    'origin4':  bytes([0x01, 0x03]),
-    # TODO: RouteTargetASN4Number (2,3)
+    # two-octet AS specific (RFC 4360 3.1), IPv4 address specific (RFC 4360 3.2), four-octet AS specific (RFC 5668)
+    'target':    bytes([0x00, 0x02]),
+    'target-ip': bytes([0x01, 0x02]),
+    'target4':   bytes([0x02, 0x02]),
+    'origin':    bytes([0x00, 0x03]),
+    'origin-ip': bytes([0x01, 0x03]),
+    'origin4':   bytes([0x02, 0x03]),
     'redirect': bytes([0x80, 0x08]),
     'l2info':   bytes([0x80, 0x0A]),
     'redirect-to-nexthop': bytes([0x08, 0x00]),
@@ -489,10 +490,12 @@ _HEADER = {
 
 # fmt: off
 _ENCODE = {
-    'target':   'HL',
-    'target4':  'LH',
-    'origin':   'HL',
-    'origin4':  'LH',
+    'target':    'HL',
+    'target-ip': 'LH',
+    'target4':   'LH',
+    'origin':    'HL',
+    'origin-ip': 'LH',
+    'origin4':   'LH',
     'redirect': 'HL',
     'l2info':   'BBHH',
     'bandwidth': 'Hf',
@@ -548,7 +551,9 @@ def _encode(command: str, components: list[int], parts: list[str]) -> tuple[byte
         raise ValueError('invalid extended community type {}'.format(command))
 
     if command in ('origin', 'target'):
-        if components[0] > _SIZE_H or '.' in parts[0] or parts[0][-1] == 'L':
+        if '.' in parts[0]:
+            command += '-ip'
+        elif components[0] > _SIZE_H or parts[0][-1] == 'L':
             command += '4'
 
     encoding = _ENCODE[command]
